@@ -136,6 +136,95 @@ Example C14_subtree_nonvacuous :
 Proof. vm_compute. split; reflexivity. Qed.
 Local Close Scope N_scope.
 
+(* ---- inner start node: prune_tree / get_subtree called on the node at position st of a bigger
+   tree (general model run_call_at / predicate prop_C14_at; bin = false: Node trees).  Reading of the
+   property: "the tree" is the start node's subtree; paths are matched by absolute path_name against
+   the nodes of that subtree only; depths (limit and result) are counted from the start node. ---- *)
+
+Theorem C14_model_satisfies_prop_inner : forall c t st s0 call,
+  subtree_at t st = Some s0 -> call_ok call ->
+  prop_C14_at false [c] t st call (obs_of (run_call_at false [c] t st call)) = true.
+Proof. exact model_satisfies_C14_at. Qed.
+Print Assumptions C14_model_satisfies_prop_inner.
+
+(* called on the root, the general model is the model of the theorems above *)
+Theorem C14_inner_generalises_root : forall tsep t call,
+  run_call_at false tsep t [] call = run_call tsep t call.
+Proof. exact run_call_at_root. Qed.
+Print Assumptions C14_inner_generalises_root.
+
+Theorem C14_prune_kept_inner : forall c sep t st s0 paths exact d,
+  subtree_at t st = Some s0 -> sep <> [] -> paths <> [] ->
+  singletons (hits_at c sep t st paths) = true -> nested (concat (hits_at c sep t st paths)) = false ->
+  exists r, prune_tree_at false [c] t st (PList paths) exact sep d = Ret r /\
+            obs_tree r =
+            map (rel_lbl st)
+                (filter (fun ps => prefixb st (fst ps)
+                                   && (keep (concat (hits_at c sep t st paths)) exact (fst ps)
+                                       && within_depth d (S (length (fst ps)) - length st))) (pre_pos t)).
+Proof. exact prune_kept_inner. Qed.
+Print Assumptions C14_prune_kept_inner.
+
+Theorem C14_subtree_spec_inner : forall c t st s0 s d q,
+  subtree_at t st = Some s0 -> s <> [] -> addressed_at false [c] t st s = [q] ->
+  prefix st q /\
+  exists r, get_subtree_at false [c] t st s d = Ret r /\ obs_tree r = expected_subtree t q d.
+Proof. exact subtree_spec_inner. Qed.
+Print Assumptions C14_subtree_spec_inner.
+
+(* a path that addresses nothing below the start node — e.g. a node elsewhere in the tree — is an error *)
+Theorem C14_missing_path_error_inner : forall c sep t st s0 paths exact d s,
+  subtree_at t st = Some s0 -> sep <> [] -> In s paths ->
+  addressed_at false [c] t st (replace s sep [c]) = [] ->
+  exists e, prune_tree_at false [c] t st (PList paths) exact sep d = Raise e.
+Proof. exact missing_path_error_inner. Qed.
+Print Assumptions C14_missing_path_error_inner.
+
+Local Open Scope N_scope.
+Example C14_inner_nonvacuous :
+  let t := T None [114] [] [T None [97] [] [T None [99] [] [T None [101] [] []]; T None [100] [] []];
+                            T None [98] [] []] in
+  subtree_at t [0]%nat <> None
+  /\ hits_at 47 [47] t [0]%nat [[97; 47; 99]] = [[[0; 0]%nat]]
+  /\ addressed_at false [47] t [0]%nat [98] = []
+  /\ obs_of (run_call_at false [47] t [0]%nat (CPrune (PList [[97; 47; 99]]) true [47] 0%nat))
+     = OTree [(1%nat, [97], []); (2%nat, [99], [])].
+Proof. vm_compute. repeat split. discriminate. Qed.
+Local Close Scope N_scope.
+
+(* ---- BinaryNode trees (empty slot = HOLE; `holes_leaf`: nothing hangs below an empty slot).
+   Path pruning: the real nodes of the result are exactly the kept real nodes (order, depth, name,
+   attributes), and no slot moves: slot i of every remaining node holds what it held, or is empty.
+   (The BinaryNode depth cut and the link from `addressed_at true` to the model's search are covered
+   by the correspondence run only.) ---- *)
+
+Theorem C14_binary_prune_kept : forall N exact t,
+  holes_leaf t = true -> N <> [] -> nested N = false ->
+  real_obs (prune_paths_at true N exact [] t) =
+  map lbl_of (filter (fun ps => keep N exact (fst ps) && negb (is_hole (snd ps))) (pre_pos t)).
+Proof. exact binary_prune_kept. Qed.
+Print Assumptions C14_binary_prune_kept.
+
+Theorem C14_binary_slots_preserved : forall alive g n a ks,
+  length (tkids (filter_tree_b alive (T g n a ks))) = length ks /\
+  forall i, nth_error (tkids (filter_tree_b alive (T g n a ks))) i =
+            option_map (fun k => if is_hole k then k
+                                 else if alive [i] then filter_tree_b (fun p => alive (i :: p)) k else HOLE)
+                       (nth_error ks i).
+Proof. exact binary_slots_preserved. Qed.
+Print Assumptions C14_binary_slots_preserved.
+
+Local Open Scope N_scope.
+Example C14_binary_nonvacuous :
+  let t := T None [49] [] [T None [50] [] [HOLE; T None [52] [] [T None [54] [] [HOLE; HOLE]; HOLE]];
+                           T None [51] [] [T None [53] [] [HOLE; HOLE]; HOLE]] in
+  holes_leaf t = true
+  /\ obs_of (run_call_at true [47] t []%list (CPrune (PStr [52]) true [47] 0%nat))
+     = OTree [(1%nat, [49], []); (2%nat, [50], []); (3%nat, [], []); (3%nat, [52], []);
+              (4%nat, [], []); (4%nat, [], []); (2%nat, [], [])].
+Proof. vm_compute. split; reflexivity. Qed.
+Local Close Scope N_scope.
+
 (* K3 (known finding): with the two-character separator "->" the faithful model — like the code —
    looks "r->a-" up as "r->a" (rstrip strips the character set {'-','>'}) and keeps the wrong node. *)
 Example C14_multichar_sep_refuted :
